@@ -37,6 +37,7 @@ from __future__ import annotations
 
 import ast
 import os
+import re
 from pathlib import Path
 
 
@@ -1433,6 +1434,226 @@ def snapshot_carriers(root: Path, carried: list[dict]) -> list[dict]:
     return out
 
 
+# ----------------------------------------------------------------------------------------
+# sites 90+: writes to CALLER-OWNED CONFIGURATION (the input objects of a run)
+# ----------------------------------------------------------------------------------------
+# The caller hands a run its EngineConfig / ExecutionConfig / NetworkConfig / GenerationConfig / Override / checks config (and the
+# loaded schema object).  A caller that keeps these objects and starts a second run with them carries whatever the first run wrote
+# into them: they are part of the state carried from run to run, exactly like a module-level dict.  An *owned write* is an
+# attribute / item assignment, `del`, `setattr` or in-place mutator call whose target object is reachable from
+#   * a parameter that is a configuration object (annotation mentions ...Config / Override, or the name is `config` / `*_config`),
+#   * `<anything>.config` / `<anything>.<x>_config` (EngineContext.config, self.config, schema.generation_config, ...),
+#   * a local bound to such an expression (attribute access, subscripting, getattr, `.get()`),
+#   * one level below a SHALLOW copy: `x = replace(cfg)` / `copy.copy(cfg)`: `x.a = v` is private to the copy, `x.a.b = v` writes into
+#     the caller's `a` unless `a=` was given a fresh value in the replace() call,
+# in the function itself or in a nested function / class body that closes over such a name.  Every hit must be classified in
+# OWNED_WRITES_CLASSIFIED; anything else is emitted as a write site of Gen_C13.gen_owned_writes (fail closed) and reported.
+_OWNED_ANNOTATION = re.compile(r"Config\b|\bOverride\b")
+_SHALLOW_COPY_CALLS = {"replace", "copy"}
+_DEEP_COPY_CALLS = {"deepcopy", "deepclone"}
+# (file, function, written object) -> why this is not a write to an object the caller keeps
+OWNED_WRITES_CLASSIFIED: dict[tuple[str, str, str], str] = {}
+
+
+def _config_attr(attr: str) -> bool:
+    a = attr.lower()
+    return a == "config" or a.endswith("_config")
+
+
+def _owned_params(fn) -> dict[str, tuple]:
+    out = {}
+    a = fn.args
+    for x in a.posonlyargs + a.args + a.kwonlyargs:
+        ann = ast.unparse(x.annotation) if x.annotation is not None else ""
+        if x.arg in ("self", "cls"):
+            continue
+        if _OWNED_ANNOTATION.search(ann) or _config_attr(x.arg):
+            out[x.arg] = ("owned", f"parameter `{x.arg}`" + (f": {ann}" if ann else ""))
+    return out
+
+
+class _OwnedScan:
+    """One function (with the environment of the enclosing functions): which expressions denote caller-owned configuration."""
+
+    def __init__(self, fn, outer_env: dict[str, tuple]):
+        self.fn = fn
+        bound = set(_fn_params(fn))
+        for node in _ps_own_nodes(fn):
+            bound.update(_bound_names(node))
+        self.env = {k: v for k, v in outer_env.items() if k not in bound}
+        self.env.update(_owned_params(fn))
+        changed = True
+        while changed:
+            changed = False
+            for node in _ps_own_nodes(fn):
+                if isinstance(node, (ast.Assign, ast.AnnAssign, ast.NamedExpr)) and getattr(node, "value", None) is not None:
+                    st = self.own(node.value)
+                    if st is None:
+                        continue
+                    tgts = [node.target] if not isinstance(node, ast.Assign) else node.targets
+                    for t in tgts:
+                        if isinstance(t, ast.Name) and self._merge(t.id, st):
+                            changed = True
+
+    def _merge(self, name: str, st: tuple) -> bool:
+        cur = self.env.get(name)
+        if cur is None:
+            self.env[name] = st
+            return True
+        if cur[0] == "owned":
+            return False
+        if st[0] == "owned":
+            self.env[name] = st
+            return True
+        fresh = cur[1] & st[1]
+        if fresh != cur[1]:
+            self.env[name] = ("shallow", fresh, cur[2])
+            return True
+        return False
+
+    def own(self, node):
+        """None | ("owned", how) | ("shallow", attributes given a fresh value, how)."""
+        if isinstance(node, ast.Name):
+            return self.env.get(node.id)
+        if isinstance(node, ast.Attribute):
+            base = self.own(node.value)
+            if base is not None:
+                if base[0] == "shallow":
+                    if node.attr in base[1]:
+                        return None
+                    return ("owned", f"`{ast.unparse(node)}` is still the caller's object: {base[2]} is a SHALLOW copy")
+                return ("owned", base[1])
+            if _config_attr(node.attr):
+                return ("owned", f"`{ast.unparse(node)}`")
+            return None
+        if isinstance(node, ast.Subscript):
+            base = self.own(node.value)
+            return None if base is None else ("owned", base[-1])
+        if isinstance(node, ast.Call):
+            last = (dotted(node.func) or "?").split(".")[-1]
+            if last in _DEEP_COPY_CALLS:
+                return None
+            if isinstance(node.func, ast.Name) and last == "getattr" and node.args:
+                base = self.own(node.args[0])
+                return None if base is None else ("owned", base[-1])
+            if last in _SHALLOW_COPY_CALLS and (node.args or isinstance(node.func, ast.Attribute)):
+                # replace(E, ..) / copy(E) / copy.copy(E) / dataclasses.replace(E, ..) / E.copy()
+                src = node.args[0] if node.args else node.func.value
+                base = self.own(src)
+                if base is None:
+                    return None
+                fresh = {k.arg for k in node.keywords if k.arg is not None and (self.own(k.value) or ("shallow",))[0] == "shallow"}
+                return ("shallow", frozenset(fresh), f"`{ast.unparse(node)[:60]}`")
+            if isinstance(node.func, ast.Attribute) and last in _ELEMENT_GETTERS:
+                base = self.own(node.func.value)
+                return None if base is None else ("owned", base[-1])
+            return None
+        if isinstance(node, ast.IfExp):
+            a, b = self.own(node.body), self.own(node.orelse)
+            return a if (a is not None and a[0] == "owned") or b is None else b
+        if isinstance(node, ast.BoolOp):
+            got = [g for g in (self.own(v) for v in node.values) if g is not None]
+            owned = [g for g in got if g[0] == "owned"]
+            return (owned or got or [None])[0]
+        if isinstance(node, ast.NamedExpr):
+            return self.own(node.value)
+        return None
+
+    def hits(self):
+        for node in _ps_own_nodes(self.fn):
+            victims = []
+            if isinstance(node, (ast.Assign, ast.AugAssign, ast.AnnAssign)):
+                if isinstance(node, ast.AnnAssign) and node.value is None:
+                    continue
+                tgt = node.targets if isinstance(node, ast.Assign) else [node.target]
+                for t in tgt:
+                    for el in (t.elts if isinstance(t, (ast.Tuple, ast.List)) else [t]):
+                        if isinstance(el, (ast.Subscript, ast.Attribute)):
+                            victims.append((el.value, "item/attribute assignment"))
+            elif isinstance(node, ast.Delete):
+                victims += [(t.value, "del") for t in node.targets if isinstance(t, (ast.Subscript, ast.Attribute))]
+            elif isinstance(node, ast.Call) and isinstance(node.func, ast.Attribute) and node.func.attr in _MUTATORS:
+                victims.append((node.func.value, f".{node.func.attr}()"))
+            elif isinstance(node, ast.Call) and isinstance(node.func, ast.Name) and node.func.id in ("setattr", "delattr") and node.args:
+                victims.append((node.args[0], f"{node.func.id}()"))
+            for victim, kind in victims:
+                st = self.own(victim)
+                if st is not None and st[0] == "owned":
+                    yield node, victim, kind, st[1]
+
+
+def owned_config_scan(root: Path) -> list[dict]:
+    """Every write whose target object is reachable from caller-owned configuration (see above)."""
+    idx = _PsIndex(root)
+    hits = []
+
+    def visit(fn, env, rel, qual):
+        sc = _OwnedScan(fn, env)
+        for node, victim, kind, how in sc.hits():
+            hits.append({"rel": rel, "line": node.lineno, "function": qual, "kind": kind, "object": ast.unparse(victim), "how": how,
+                         "stmt": ast.unparse(node)[:110].replace("\n", " "), "key": (rel, qual, ast.unparse(victim))})
+        # nested functions and the bodies of nested classes close over the names of this function
+        stack = list(fn.body)
+        while stack:
+            node = stack.pop()
+            if isinstance(node, (ast.FunctionDef, ast.AsyncFunctionDef)):
+                visit(node, sc.env, rel, f"{qual}.{node.name}")
+                continue
+            if isinstance(node, ast.Lambda):
+                continue
+            stack.extend(ast.iter_child_nodes(node))
+
+    for rel, tree in idx.trees.items():
+        stack = [(st, "") for st in tree.body]
+        while stack:
+            node, prefix = stack.pop()
+            if isinstance(node, (ast.FunctionDef, ast.AsyncFunctionDef)):
+                visit(node, {}, rel, prefix + node.name)
+            elif isinstance(node, ast.ClassDef):
+                stack.extend((st, f"{prefix}{node.name}.") for st in node.body)
+            elif isinstance(node, (ast.If, ast.Try, ast.With)):
+                stack.extend((st, prefix) for st in ast.iter_child_nodes(node) if isinstance(st, ast.stmt))
+    hits.sort(key=lambda h: (h["rel"], h["line"], h["object"]))
+    return hits
+
+
+def _owned_phases(rel: str) -> list[str]:
+    if rel.startswith("engine/phases/stateful") or rel.startswith("generation/stateful") or "/stateful/" in rel:
+        return ["Stateful"]
+    if rel.startswith("engine/phases/unit"):
+        return ["Examples", "Coverage", "Fuzzing"]
+    return ALL_PHASES
+
+
+def owned_write_sites(root: Path) -> tuple[list[dict], list[dict], list[str]]:
+    """(write sites emitted into Gen_C13.gen_owned_writes, classified hits, problems)."""
+    groups: dict[tuple, list[dict]] = {}
+    for h in owned_config_scan(root):
+        groups.setdefault(h["key"], []).append(h)
+    sites, classified, problems = [], [], []
+    next_id = 90
+    for key in sorted(groups):
+        hs = groups[key]
+        h = hs[0]
+        where = f"{h['rel']}:{','.join(str(x['line']) for x in hs)} {h['function']}: {h['kind']} on `{h['object']}` ({h['how']}) `{h['stmt'][:80]}`"
+        why = OWNED_WRITES_CLASSIFIED.get(key)
+        if why is not None:
+            classified.append({"where": where, "why": why, "key": list(key)})
+            continue
+        problems.append(f"unclassified write to caller-owned configuration: {where}; the object belongs to the caller of the engine: a second run "
+                        "that is given the same EngineConfig / ExecutionConfig / ... object starts from what this run wrote into it")
+        sites.append({"id": next_id, "phases": _owned_phases(h["rel"]), "where": where + " - UNCLASSIFIED", "key": list(key)})
+        next_id += 1
+    for key in sorted(OWNED_WRITES_CLASSIFIED):
+        if key not in groups:
+            problems.append(f"classified write to a configuration object disappeared (re-read the site): {key[0]} {key[1]} on {key[2]}")
+    return sites, classified, problems
+
+
+def render_wsite(s: dict) -> str:
+    return f"mkWSite {s['id']} [{'; '.join(s['phases'])}]"
+
+
 def render_csite(s: dict) -> str:
     phases = "[" + "; ".join(s["phases"]) + "]"
     return f"mkCSite {s['id']} {s['cclass']} {phases} {'true' if s['in_request'] else 'false'}"
@@ -1636,6 +1857,8 @@ def translate(root: Path | None = None) -> dict:
     problems = []
     carried, ps_problems = process_state_sites(root, generate_one_tag(root)[0][0] == "Ambient")
     problems += ps_problems
+    owned_sites, owned_classified, owned_problems = owned_write_sites(root)
+    problems += owned_problems
     try:
         prims = check_primitives(root)
     except TranslationError as exc:  # the plan is still emitted (so that the proofs see it); the check reports the broken tie
@@ -1673,9 +1896,23 @@ def translate(root: Path | None = None) -> dict:
         sep = ";" if i + 1 < len(carried) else ""
         lines.append(f"  (* {clean_comment(c['where'])} *)")
         lines.append(f"  {render_csite(c)}{sep}")
+    lines += [
+        "].",
+        "",
+        "(* Writes to CALLER-OWNED CONFIGURATION: places where code reachable from a run assigns into / mutates in place an object the",
+        "   caller handed to the engine (EngineConfig / ExecutionConfig / NetworkConfig / GenerationConfig / Override / checks config),",
+        "   directly, through an alias, or one level below a shallow dataclasses.replace() / copy.copy().  A caller that reuses the",
+        "   objects for a second run carries what the first run wrote (Model_C13.wsite).  None is the expected state. *)",
+        "Definition gen_owned_writes : list wsite := [",
+    ]
+    for i, w in enumerate(owned_sites):
+        sep = ";" if i + 1 < len(owned_sites) else ""
+        lines.append(f"  (* {clean_comment(w['where'])} *)")
+        lines.append(f"  {render_wsite(w)}{sep}")
     lines += ["].", ""]
     text = "\n".join(lines)
     return {"text": text, "sites": sites, "cli": cli_body, "primitives": prims, "problems": problems, "carried": carried,
+            "owned_writes": owned_sites, "owned_classified": owned_classified,
             "snapshot_carriers": snapshot_carriers(root, carried)}
 
 
